@@ -36,8 +36,14 @@ SECOND_ENTRY = {"Snake": "r3c3t4000", "Knapsack": "n10s", "Connector": "g6a3t2un
 
 
 # tiny instances on which episodes keep ending by *completion* (a won game), not only by invalid moves / time limits
-WIN_ENTRY = {"Snake": ["r2c2t4000"], "Sudoku": ["near"]}
-SOLVE_STYLES = {"Sudoku"}       # entries that need the model's constructive policy to reach their completion endings
+WIN_ENTRY = {"Snake": ["r2c2t4000"], "Sudoku": ["near"], "Maze": ["r4c7tNone"], "RubiksCube": ["n2s1t3"],
+             "SlidingTilePuzzle": ["g2m1t3s"], "Sokoban": ["simplet120"], "Minesweeper": ["r2c2m1"],
+             "LevelBasedForaging": ["g5a3f1v5l2nVNp0t40"], "Connector": ["g5a2t12rwc20s0"], "MMST": ["n12e18a3k2t30"],
+             "Cleaner": ["r3c3a2tNone"]}
+# entries that need the model's constructive policy to reach their completion endings
+SOLVE_STYLES = {"Sudoku", "Maze", "RubiksCube", "SlidingTilePuzzle", "Sokoban", "LevelBasedForaging", "Connector", "MMST",
+                "Cleaner"}
+WIN_QUICK = ("Snake", "Sudoku", "Maze", "RubiksCube", "SlidingTilePuzzle", "Sokoban")
 
 
 class Rig:
@@ -267,12 +273,13 @@ def run_case(ctx, rig, key_words, plan=None, actions=None, fail=None, typed=Fals
 
 def work_items(tier, flt):
     scale = (flt or {}).get("scale", 1.0)
-    names = (QUICK_ENVS + ["Sudoku"]) if tier == "quick" else envs.ENV_NAMES
+    names = list(dict.fromkeys(QUICK_ENVS + list(WIN_QUICK))) if tier == "quick" else envs.ENV_NAMES
     items = []
     for env in envs.select_envs(names, flt):
-        es = [SHORT_ENTRY[env]] + WIN_ENTRY.get(env, [])
+        win = [e for e in WIN_ENTRY.get(env, []) if e != SHORT_ENTRY[env] and (tier != "quick" or env in WIN_QUICK)]
+        es = [SHORT_ENTRY[env]] + win
         if tier == "quick" and env not in QUICK_ENVS:
-            es = WIN_ENTRY.get(env, [])
+            es = win
         if tier == "thorough" and env in SECOND_ENTRY:
             es.append(SECOND_ENTRY[env])
         if flt and flt.get("entry"):
@@ -327,8 +334,10 @@ def run_item(item, seed, tier):
                     ctx.sample({"env": env, "entry": entry, "flag": flag, "key": list(key), "boundaries": nb,
                                 "actions": case["actions"][:10]})
 
-        styles = ("solve", "solve", "solveish", "legal") if (env in SOLVE_STYLES and entry in WIN_ENTRY.get(env, [])) else \
-            ("legalish", "chaos", "late_illegal", "legal")
+        styles = ("legalish", "chaos", "late_illegal", "legal")
+        if env in SOLVE_STYLES and entry in WIN_ENTRY.get(env, []):
+            styles = ("solve", "legalish", "solveish", "chaos", "solve", "late_illegal") if entry == SHORT_ENTRY[env] else \
+                ("solve", "solve", "solveish", "legal")
         hyp.drive({"key": episodes.keys(),
                    "plan": episodes.plans(max_len=N_STEPS, min_len=N_STEPS, styles=styles)},
                   one, seed, item["n"])
